@@ -283,8 +283,11 @@ def check_suzuki(idx: Index, rep: Report):
     rep.decide(total == 0, rule, f, f.node, text="order 4: coefficients of each term sum to coefficient * time", what="every term is applied for the full time in total",
                reason=f"sum of A coefficients - a t = {total}")
     g = idx.function(f"{AU}::get_exponentiated_qubit_operator_circuit")
-    ok = any(isinstance(n, ast.If) and norm(n.test) == "trotter_order > 1 and trotter_order % 2 != 0" and isinstance(n.body[0], ast.Raise) for n in own_nodes(g.node))
-    rep.decide(ok, rule, g, g.node, text="odd orders above one are refused", what="only order 1 and even orders are defined", reason="guard on odd Trotter orders missing")
+    from ..rules.guards import decide_refusals
+    from ..consteval import Opaque
+    base = {"qubit_op": Opaque("qubit_op"), "time": 1.0, "variational": False, "control": None, "return_phase": False, "pauli_order": None}
+    decide_refusals(idx, rep, rule, g, [(f"trotter_order={k}", dict(base, trotter_order=k), k > 1 and k % 2 == 1) for k in range(1, 9)],
+                    what="order 1 and even orders are accepted, odd orders above one are refused")
 
 
 def check_trotterize(idx: Index, rep: Report):
@@ -292,9 +295,19 @@ def check_trotterize(idx: Index, rep: Report):
     f = idx.function(f"{AU}::trotterize")
     t, nst, cf = sp.Symbol("time", real=True), sp.Symbol("n_trotter_steps", positive=True), sp.Symbol("coef", real=True)
     rets = [n for n in own_nodes(f.node) if isinstance(n, ast.Assign) and norm(n.targets[0]) == "return_value"]
-    ok = bool(rets) and norm(rets[0].value) == "(circuit * n_trotter_steps, phase ** n_trotter_steps) if return_phase else circuit * n_trotter_steps"
-    rep.decide(ok, rule, f, rets[0] if rets else f.node, text="circuit * n_steps, phase ** n_steps", what="one step is repeated n_steps times and its phase raised to that power",
-               reason=f"return value {norm(rets[0].value) if rets else '?'}")
+    if not rets:
+        raise AnalysisError("trotterize: return_value assignment not found")
+    C, PH = sp.Symbol("circuit", commutative=False), sp.Symbol("phase")
+    got = {}
+    for rp in (True, False):
+        fo = Folder(env={"circuit": C, "phase": PH, "n_trotter_steps": nst, "return_phase": rp})
+        try:
+            got[rp] = fo.expr(rets[0].value)
+        except (Undecidable, Raised) as e:
+            got[rp] = f"not foldable: {e}"
+    ok = isinstance(got[True], tuple) and len(got[True]) == 2 and got[True][0] == C * nst and sp.simplify(got[True][1] - PH ** nst) == 0 and got[False] == C * nst
+    rep.decide(ok, rule, f, rets[0], text="circuit * n_steps, phase ** n_steps", what="one step is repeated n_steps times and its phase raised to that power",
+               reason=f"return value is {got[True]} with the phase, {got[False]} without")
     fbranch = None
     for n in ast.walk(f.node):
         if isinstance(n, ast.If) and "ofFermionOperator" in norm(n.test):
